@@ -21,6 +21,12 @@ import (
 // while the first is in the middle of its message (the peer reads slowly). Each
 // value arrives as exactly one text message that decodes to it.
 func c19WriteSetup(k connCfg) func(c *fw.Ctx, name string) explore.Setup {
+	return c19WriteSetupN(k, 2)
+}
+
+// c19WriteSetupN: n concurrent writers (with three, two are queued for the message lock
+// when the first finishes).
+func c19WriteSetupN(k connCfg, n int) func(c *fw.Ctx, name string) explore.Setup {
 	return func(c *fw.Ctx, name string) explore.Setup {
 		return func(w *vs.World) func(bool) {
 			p := vpipe.New()
@@ -28,7 +34,8 @@ func c19WriteSetup(k connCfg) func(c *fw.Ctx, name string) explore.Setup {
 			vals := []interface{}{
 				map[string]interface{}{"kind": "first", "text": strings.Repeat("the quick brown fox ", 30)},
 				[]interface{}{"second", strings.Repeat("jumps over the lazy dog ", 25), 42.0},
-			}
+				map[string]interface{}{"kind": "third", "n": []interface{}{1.0, 2.0, strings.Repeat("pack my box ", 20)}},
+			}[:n]
 			errs := make([]error, len(vals))
 			w.GoHarness("main", true, func() {
 				conn := mkConn(p, k)
@@ -120,6 +127,9 @@ func c19WriteScenarios(tier string) []scenario {
 	}
 	for _, k := range []connCfg{{Client: false}, {Client: true}, {Client: false, Flate: true, Thr: 1}, {Client: true, Flate: true, Thr: 1, CNCT: true, SNCT: true}} {
 		scs = append(scs, scenario{Name: "wconc-json/" + k.String(), Cfg: explore.Config{P: p, Horizon: 60e9}, Setup: c19WriteSetup(k)})
+		if k.Flate {
+			scs = append(scs, scenario{Name: "wconc-json3/" + k.String(), Cfg: explore.Config{P: p, Horizon: 60e9}, Setup: c19WriteSetupN(k, 3)})
+		}
 	}
 	return scs
 }
